@@ -42,7 +42,7 @@ fn explore_case<T: PartialEq + Clone + std::fmt::Debug>(
     let mut outcomes = 0usize;
     let mut seen: Vec<T> = vec![];
     let st = sched::explore(cfg, bound, 200_000, &body, |r, tr| {
-        if let Some(Abort::Diverged(m)) = &tr.abort {
+        if let Some(m) = &tr.diverged {
             eprintln!("MACHINERY ERROR: schedule replay diverged on {key}: {m}");
             std::process::exit(3);
         }
@@ -297,8 +297,8 @@ pub fn schedule_part(run: &Run) -> Out {
         let cfg = Config { workers: 2, choose_items: false, max_decisions: 100_000, min_items: 2, count_task_switches: _wide };
         let bound = if th && !_wide { 3 } else { 2 };
         let st = sched::explore(&cfg, Some(bound), 400_000, body, |r, tr| match (&tr.abort, r) {
-            (Some(Abort::Diverged(mm)), _) => {
-                eprintln!("MACHINERY ERROR: schedule replay diverged on {key}: {mm}");
+            _ if tr.diverged.is_some() => {
+                eprintln!("MACHINERY ERROR: schedule replay diverged on {key}: {:?}", tr.diverged);
                 std::process::exit(3);
             }
             (Some(ab), _) => {
